@@ -219,8 +219,6 @@ def s_start_handshake(vc):
     out = vc.call(UP + ".start_handshake", lyr, on_yield=on_yield)
     vc.ensure("total", out.ok)
     if not out.ok:
-        if __import__("os").environ.get("C24_DEBUG"):
-            print("RAISED", out.raised, getattr(out.raised, "fields", None))
         return
     tr = [c for c in out.trace if not isinstance(c, (STuple, tuple))]
     kinds = trace_kinds(tr)
